@@ -11,7 +11,7 @@ import math
 import numpy as np
 import pandas as pd
 
-from harness.common import contains, eqv
+from harness.common import cells_same, contains, eqv
 from symx import Obligation, Sym, Violation
 from symx.rebind import rebound
 
@@ -68,6 +68,9 @@ def make_X(ctx, n, n_nan, companions, prefix="x"):
     if companions:
         data["q"] = pd.Series((["a", "b", "a", "c", "b", "a", "c", "b"] * 3)[:N], dtype=object)
         data["extra"] = list(range(N))
+        # non-feature columns holding missing values (seed5-C07)
+        data["extra_nan"] = [float("nan") if i % 3 == 0 else float(i) for i in range(N)]
+        data["extra_obj"] = pd.Series([None if i % 3 == 1 else "x" for i in range(N)], dtype=object)
     X = pd.DataFrame(data)
     X.index = [100 + 3 * i for i in range(N)]
     return X, xs
@@ -251,6 +254,8 @@ def _h_fit(ctx, cls, n, n_nan, ypat, params, companions, props, dev_ypat=None):
             ctx.require(list(out.index) == list(X.index) and list(out.columns) == list(X.columns), "C07.index-columns", "output index/columns differ from X")
             if companions:
                 ctx.require(list(out["extra"]) == list(X["extra"]), "C07.non-feature-column", "non-feature column changed")
+                for oc in ("extra_nan", "extra_obj"):
+                    ctx.require(cells_same(list(out[oc]), list(X[oc])), "C07.non-feature-column", f"non-feature column {oc} (with missing values) changed: {list(out[oc])!r}")
         if not kept:
             if "C08" in props:
                 ctx.require(col_equal(col, list(X["f"])), "C08.dropped-feature-touched", "a dropped feature's column was modified by transform")
